@@ -15,9 +15,9 @@ import (
 func gen(rng *h.Rng, tier string, emit func(string)) {
 	st := h.Stats{}
 	verifacc.ThresholdCases(rng.Fork(), tier, emit, st)
-	nd, n := 300, 2000
+	nd, n := 1000, 5000
 	if tier == "thorough" {
-		nd, n = 5000, 50000
+		nd, n = 20000, 250000
 	}
 	verifacc.DerCases(rng.Fork(), nd, emit, st)
 	for i := 0; i < n; i++ {
